@@ -1,6 +1,7 @@
 import FlVerif.Op.Cascade
 import FlVerif.Gen.SetterGen
 import Mathlib.Tactic.Linarith
+import FlVerif.Lemmas.CodeCascade
 
 /-! # C12 — Output values follow the lock-previous / default / lock-range cascade
 
@@ -10,6 +11,22 @@ of ANY length and for all 12 settings at once (the flags and the default are uni
 namespace C12
 variable {α : Type} [Field α] [LinearOrder α] [IsStrictOrderedRing α]
 open Op X
+
+/-- **Tie A (code → model).**  `Gen.Code.OutputVariable_defuzzify` is regenerated from the source of
+    `OutputVariable.defuzzify` on every run (`fv/pylean.py`; the array `value` is the list of its rows, the
+    `np.nditer` block is the in-place loop over them, the masked assignment of the default and the clipping setter of
+    `Variable.value` are the externals `Py.Cascade.maskNan` / `Py.Cascade.setValue`).  `r` is what the defuzzifier step
+    yields: the raw batch, the exception the defuzzifier raises, or `ValueError` when there is no defuzzifier.  For
+    every setting, raw batch and previous state: when the model `Op.defuzzify` says "raises", the code raises that
+    exception (nothing was assigned); otherwise `self.value` / `self.previous_value` after the call are the state the
+    model returns (`Op.commit` for an enabled variable, the unchanged state for a disabled one). -/
+theorem code_defuzzify (c : CascadeCfg Rat) (hasDefuzzifier : Bool) (raw : Py.M (List (X Rat))) (s : OutState Rat) :
+    let r : Py.M (List (X Rat)) := if hasDefuzzifier then raw else .error .value
+    match defuzzify c r.toOption s with
+    | (_, true) => ∃ err, r = .error err ∧ Gen.Code.OutputVariable_defuzzify.run c hasDefuzzifier raw s {} = .error err
+    | (s', false) => ∃ σ, Gen.Code.OutputVariable_defuzzify.run c hasDefuzzifier raw s {} = .ok σ ∧
+        σ.self_value = s'.value ∧ σ.self_previous_value = s'.previous :=
+  Op.code_defuzzify c hasDefuzzifier raw s
 
 /-! ## helper facts about clipping -/
 
